@@ -346,6 +346,12 @@ class KindAnalysis(object):
             return fs(mk_list(self.eval(func, e.elt, st2, facts)))
         if isinstance(e, ast.Subscript):
             r = self.subscript_summary(func, e, state)
+            if r is None and facts:
+                # the subscripted value named by a temporary (`args = failure.value.args; args[0]`)
+                from .cfg import resolve_at
+                e2 = resolve_at(facts, e)
+                if unparse(e2) != unparse(e):
+                    r = self.subscript_summary(func, e2, state)
             if r is not None:
                 return r
             return fs(ANY)
